@@ -54,9 +54,15 @@ pub trait Backend: 'static {
 
     /// called after every step of a history (commit placement, quiescence);
     /// returns false if the pipeline did not become quiescent in time
-    fn after_step(&self, _release: Option<u64>) -> bool { true }
+    fn after_step(&self, _release: Option<u64>) -> impl Future<Output = bool> {
+        async { true }
+    }
 
     fn name(&self) -> &'static str;
+
+    /// after the engine has been dropped: `Some(description)` if batches that
+    /// were submitted never reached the store (persistence stalled)
+    fn persistence_gap(&self) -> Option<String> { None }
 }
 
 #[derive(Debug, Default, Clone, Copy)]
@@ -144,7 +150,11 @@ impl BackendB {
 
     /// Wait until the write pipeline is quiescent under the current permits.
     #[cfg(feature = "hooks")]
-    pub fn quiesce(&self) -> bool {
+    pub async fn quiesce(&self) -> bool {
+        if self.quiesce_timeouts.load(Ordering::SeqCst) > 0 {
+            // the pipeline has stalled before; do not wait for it again
+            return false;
+        }
         let Some(stats) = self.stats.lock().clone() else { return true };
         let (base_consumed, base_committed) = *self.base.lock();
         let start = Instant::now();
@@ -167,16 +177,27 @@ impl BackendB {
                     return true;
                 }
             }
-            if start.elapsed() > Duration::from_secs(5) {
+            if start.elapsed() > Duration::from_secs(3) {
                 self.quiesce_timeouts.fetch_add(1, Ordering::SeqCst);
                 return false;
             }
+            // engine-spawned tasks (guard continuations of cancelled calls,
+            // drop-commits) may still have to submit their batches: let the
+            // runtime run them while waiting
+            tokio::task::yield_now().await;
             std::thread::sleep(Duration::from_micros(20));
         }
     }
 
     #[cfg(not(feature = "hooks"))]
-    pub fn quiesce(&self) -> bool { true }
+    pub async fn quiesce(&self) -> bool { true }
+}
+
+impl Drop for BackendB {
+    /// A case future may be dropped at any point (deadlock oracle, violation):
+    /// the engine's shutdown joins the committer thread, which must not be
+    /// parked at a closed gate then.
+    fn drop(&mut self) { self.store.open_gate(); }
 }
 
 impl Backend for BackendB {
@@ -224,12 +245,12 @@ impl Backend for BackendB {
 
     fn before_shutdown(&self) { self.store.open_gate(); }
 
-    fn after_step(&self, release: Option<u64>) -> bool {
+    async fn after_step(&self, release: Option<u64>) -> bool {
         match self.mode {
             CommitMode::Open => true,
             CommitMode::StepDrain => {
                 self.store.open_gate();
-                let ok = self.quiesce();
+                let ok = self.quiesce().await;
                 self.store.close_gate();
                 ok
             }
@@ -237,7 +258,7 @@ impl Backend for BackendB {
                 if let Some(k) = release {
                     self.store.release(k);
                 }
-                let ok = self.quiesce();
+                let ok = self.quiesce().await;
                 self.store.zero_permits();
                 ok
             }
@@ -245,4 +266,21 @@ impl Backend for BackendB {
     }
 
     fn name(&self) -> &'static str { "B:DbBacked<MockKv>" }
+
+    fn persistence_gap(&self) -> Option<String> {
+        #[cfg(feature = "hooks")]
+        {
+            let stats = self.stats.lock().clone()?;
+            let (_, base_committed) = *self.base.lock();
+            let committed =
+                self.store.committed_logical.load(Ordering::SeqCst) - base_committed;
+            let submitted = stats.submitted();
+            if committed != submitted {
+                return Some(format!(
+                    "{submitted} write batches were submitted but only {committed} reached the store by the time the engine had shut down (an unsubmitted batch holds back every later one)"
+                ));
+            }
+        }
+        None
+    }
 }
